@@ -40,6 +40,17 @@ CLAIMED = {
               "index tuples with exact expected values; each is cross-checked against torch on the dense tensor and replayed into the library "
               "with the debug setting on and off; diagonal() too."),
         design="5/C03"),
+    "C17": dict(
+        engine="E3-history-machines",
+        technique="TLA+ state machine of settings contexts (ideal scoped semantics + implementation-shaped model), TLC refinement check, all histories replayed into linear_operator.settings",
+        text=("spec/LOSettings.tla models 8 context classes (flags, scalar values, the per-dtype value class with an unset slot, the two "
+              "composites, the cache-owning flag) with construct / enter / exit / exit-by-exception events. TLC checks that the "
+              "implementation-shaped model refines the ideal scoped semantics (Refines, RestoreOnExit, NoCrossLeak, "
+              "DefaultsAtQuiescence, SnapDiscipline) exhaustively to the depth bound, then emits every history with the expected value of "
+              "every slot after every event; each history is replayed into the real settings module under rotating bindings to the 12 flag / "
+              "16 value classes, compared after each event, unwound and checked for defaults. The model of the pinned tree is rejected by "
+              "TLC in 5 steps (thorough tier re-checks this), which is how the two leaks were found and repaired."),
+        design="5/C17", note="TLC 1.8; the binding of abstract slots to real classes in harness/checks/c17.py; LIFO nesting of with-blocks"),
 }
 
 NOT_YET = {}
@@ -72,6 +83,9 @@ def main():
         hooks=dict(guard="LINEAR_OPERATOR_VERIF", enable="none needed: all observation points are reached by run-time wrapping; checks import /repo's working tree directly",
                    baseline_off_cmd=BASELINE, source_commits=[], add_only=True),
         engines=[
+            dict(name="E3-history-machines", path="spec/LOSettings.tla spec/LOCache.tla spec/LOPsdChol.tla harness/checks/",
+                 serves_properties=sorted(k for k, v in CLAIMED.items() if v["engine"] == "E3-history-machines"),
+                 kind_free_text="TLA+ state machines over event histories (ideal + implementation-shaped layers), exhaustive TLC exploration, histories replayed into / traces validated from the library"),
             dict(name="E1-denote-replay", path="spec/LOTensor.tla spec/LOOperators.tla spec/LOGen.tla spec/MC_*.tla harness/",
                  serves_properties=sorted(k for k, v in CLAIMED.items() if v["engine"] == "E1-denote-replay"),
                  kind_free_text="TLA+ denotational specification; TLC enumerates behaviours with exact expected observations; Python replays them into the library"),
